@@ -183,8 +183,12 @@ def run_shards(check_id, specs, workers, timeout):
     return [results[i] for i in sorted(results)], failures
 
 
+def replay_root():
+    return os.environ.get('PVF_REPLAY_DIR') or os.path.join(VERIF, 'replays')
+
+
 def write_replay(pid, witness):
-    d = os.path.join(VERIF, 'replays', pid)
+    d = os.path.join(replay_root(), pid)
     if not os.path.isdir(d):
         os.makedirs(d)
     blob = json.dumps(witness, sort_keys=True, default=repr, indent=1)
@@ -221,7 +225,7 @@ def write_evidence(ctx, merged, mod, wall, verdict, nviol):
         'wall_s': round(wall, 2),
         'violations': nviol,
     }
-    d = os.path.join(VERIF, 'evidence')
+    d = os.environ.get('PVF_EVIDENCE_DIR') or os.path.join(VERIF, 'evidence')
     if not os.path.isdir(d):
         os.makedirs(d)
     with open(os.path.join(d, ctx.id + '.json'), 'w') as f:
@@ -280,7 +284,7 @@ def main(argv=None):
             witness = json.load(f)
         specs = [mod.replay_spec(ctx, witness)]
     else:
-        shutil.rmtree(os.path.join(VERIF, 'replays', pid), ignore_errors=True)
+        shutil.rmtree(os.path.join(replay_root(), pid), ignore_errors=True)
         specs = mod.shards(ctx)
     timeout = getattr(mod, 'TIMEOUT', {'quick': 900, 'thorough': 7200})[ctx.tier]
     parts, failures = run_shards(pid, specs, ctx.workers, timeout)
